@@ -26,14 +26,14 @@ type mutant struct {
 	// ExtraFind/ExtraReplace: a second edit in the same file (an import, a variable)
 	ExtraFind    string `json:"extra_find,omitempty"`
 	ExtraReplace string `json:"extra_replace,omitempty"`
-	Patch    string `json:"patch,omitempty"` // alternatively: a unified diff under /verif (seeded/<id>/patch.diff)
+	Patch        string `json:"patch,omitempty"` // alternatively: a unified diff under /verif (seeded/<id>/patch.diff)
 	// ExpectMiss marks a change that lies outside what the check claims to decide
 	// (kept in the matrix so that the limit stays visible); Why says which limit.
 	// ExpectClean marks a change under which the property still HOLDS (a correctly
 	// synchronised cache, a sync.Once): the check must stay quiet on it.
-	ExpectClean bool `json:"expect_clean,omitempty"`
-	ExpectMiss bool   `json:"expect_miss,omitempty"`
-	Why        string `json:"why,omitempty"`
+	ExpectClean bool   `json:"expect_clean,omitempty"`
+	ExpectMiss  bool   `json:"expect_miss,omitempty"`
+	Why         string `json:"why,omitempty"`
 }
 
 func loadMutants() []mutant {
